@@ -437,12 +437,19 @@ def history(g, rid=0, emphasis=None):
     live = []
     data = 1
 
+    cl = [None]
+
     def searches():
         for p in paths:
             L.append('search %s %s' % (a, hx(p)))
+            if cl[0] is not None and r.random() < 0.5:
+                L.append('search %s %s' % (cl[0], hx(p)))      # a copy taken earlier must keep answering as it did
     nops = r.choice([3, 4, 5, 6, 7, 8])
     for _ in range(nops):
         k = r.random()
+        if cl[0] is None and live and r.random() < 0.04:
+            cl[0] = str(90 + int(a)) if a.isdigit() else '90'
+            L.append('clone %s %s' % (a, cl[0]))
         if r.random() < 0.04:
             L.append('cons %s %s' % (a, r.choice(['lower', 'lower2', 'dupu8', 'even', 'noa'])))
         if k < 0.60 or not live:
